@@ -319,4 +319,156 @@ def R_KJ_DEG_MOL : α := lit (83147 / 10000000)
 `a0 = ag0/(R·t)`, where `ag0 = a0·R·tk` was stored by `ss_calc_a0_a1` -/
 def a0AtT (ag0 t : α) : α := ag0 / (R_KJ_DEG_MOL * t)
 
+/-! ## `ineq()`: the rows handed to `cl1`
+
+`ineq()` copies rows of the (column-scaled) Jacobian `my_array` — last column = `residual[i]` — into `ineq_array` in three
+sections: rows to optimise (`k`), equality rows (`l`), inequality rows `E·x ≤ f` (`m`), sets the sign restrictions
+`res[]` (on optimisation residuals) and `delta1[]` (on variables), and finally zeroes whole columns.  The model covers
+the rules for MB/CB/MU/AH2O/MH/MH2O (plain equality copies), ALK / SOLUTION_PHASE_BOUNDARY, PP, EXCH, SURFACE,
+SURFACE_CB*, SS_MOLES for the non-Pitzer engine without GAS_PHASE and without `negative_concentrations`; the choice of
+the column scale factors `normal[]` is an input (the rows are built from the scaled matrix). -/
+
+/-- an unknown as `ineq()` reads it -/
+structure IUnk (α : Type) where
+  type : Nat                 -- MB 10, ALK 11, CB 12, SOLUTION_PHASE_BOUNDARY 13, MU 14, AH2O 15, MH 16, MH2O 17, PP 18, EXCH 19,
+                             -- SURFACE 20, SURFACE_CB 21, SURFACE_CB1 22, SURFACE_CB2 23, SS_MOLES 25
+  moles : α
+  f : α
+  initial : α                -- PP: comp_ptr->Get_initial_moles()
+  grams : α                  -- SURFACE_CB*: grams of the charge structure
+  iteration : Nat            -- PP: x[i]->iteration after the "delay removing phase" update
+  phaseIn : Bool := true     -- x[i]->phase->in
+  dissolveOnly : Bool := false
+  addFormula : Bool := false
+  forceEq : Bool := false
+  ssIn : Bool := false
+
+structure IEnv (α : Type) where
+  iterations : Nat
+  aqueousOnly : Nat
+  equiDelay : Nat
+  ppScale : α
+  inKode : Nat
+  minRel : α                 -- MIN_RELATED_SURFACE
+  minTotalSS : α
+  massWaterSwitch : Bool
+  oxygenIdx : Nat            -- number of mass_oxygen_unknown (≥ count_unknowns when absent)
+  hydrogenIdx : Nat
+  exchRelated : Bool         -- the exchanger is related to phases or kinetics
+
+/-- a row of `ineq_array`: `dense kind src coef rhs res` (kind 0 = optimise, 1 = equality, 2 = inequality `coef·x ≤ rhs`;
+`src` = `back_eq`; `res` = the sign restriction on the residual of an optimisation row), or the one-entry inequality
+`c·x_col ≤ rhs` that the pure-phase and solid-solution rules write -/
+inductive IRow (α : Type) where
+  | dense (kind src : Nat) (coef : List α) (rhs res : α)
+  | unit (src col : Nat) (c rhs : α)
+
+def getL (l : List α) (i : Nat) : α := l.getD i (lit 0)
+
+/-- `Σ_j (zeroed column ? 0 : coef_j)·x_j`, accumulated left to right -/
+def dotZ : List Bool → List α → List α → α
+  | z :: zs, c :: cs, x :: xs => (if z then lit 0 else c * x) + dotZ zs cs xs
+  | [], c :: cs, x :: xs => c * x + dotZ [] cs xs
+  | _, _, _ => lit 0
+
+def IRow.lhs (z : List Bool) (x : List α) : IRow α → α
+  | .dense _ _ coef _ _ => dotZ z coef x
+  | .unit _ col c _ => if z.getD col false then lit 0 else c * getL x col
+def IRow.rhs : IRow α → α
+  | .dense _ _ _ r _ => r
+  | .unit _ _ _ r => r
+def IRow.kind : IRow α → Nat
+  | .dense k _ _ _ _ => k
+  | .unit _ _ _ _ => 2
+def IRow.src : IRow α → Nat
+  | .dense _ s _ _ _ => s
+  | .unit s _ _ _ => s
+
+/-- "Undersaturated and no mass" -/
+def ppIdle (u : IUnk α) : Bool := decide (lit 0 < u.f) && decide (u.moles ≤ lit 0) && !u.addFormula
+/-- dissolve_only phase that is supersaturated and not below its initial amount: it may not move -/
+def ppBlocked (u : IUnk α) : Bool := decide (u.f < lit 0) && u.dissolveOnly && decide (lit 0 ≤ u.moles - u.initial)
+
+/-- the column of unknown `u` is zeroed in every row -/
+def zeroCol (e : IEnv α) (i : Nat) (u : IUnk α) : Bool :=
+  match u.type with
+  | 18 => ppIdle u || !u.phaseIn || ppBlocked u
+  | 19 => e.exchRelated && decide (u.moles ≤ lit 0)
+  | 20 => decide (u.moles ≤ e.minRel)
+  | 21 | 22 | 23 => decide (u.grams ≤ e.minRel)
+  | 25 => !(u.phaseIn && u.ssIn)
+  | 17 => e.massWaterSwitch && i == e.oxygenIdx
+  | _ => false
+
+def splitRow (r : List α) : List α × α := (r.dropLast, r.getLastD (lit 0))
+
+/-- optimisation section for unknown `i` with Jacobian row `r` (coefficients ++ [residual]) -/
+def optRows (e : IEnv α) (i : Nat) (u : IUnk α) (r : List α) : List (IRow α) :=
+  if e.iterations < e.aqueousOnly then [] else
+  let (c, b) := splitRow r
+  match u.type with
+  | 18 =>
+    if !u.phaseIn then []
+    else if u.forceEq then []
+    else if decide (lit 0 < u.f) && decide (u.moles ≤ lit 0) && decide (u.iteration + e.equiDelay ≤ e.iterations) && !u.addFormula then []
+    else if ppBlocked u then []
+    else
+      let res := if !u.addFormula && !u.dissolveOnly && e.inKode == 1 then lit 1 else lit 0
+      [IRow.dense 0 i (c.map fun a => a * e.ppScale) (b * e.ppScale) res]
+  | 11 | 13 => [IRow.dense 0 i c b (lit 0)]
+  | 25 => if u.ssIn then [IRow.dense 0 i c b (if e.inKode == 1 then lit 1 else lit 0)] else []
+  | _ => []
+
+/-- equality section; `oxy` = coefficients of the mass-of-oxygen row (used when the water mass is held constant) -/
+def eqRows (e : IEnv α) (i : Nat) (u : IUnk α) (r : List α) (oxy : List α) : List (IRow α) :=
+  let (c, b) := splitRow r
+  let copy := [IRow.dense 1 i c b (lit 0)]
+  match u.type with
+  | 11 | 13 | 24 | 25 | 26 => []
+  | 18 => if u.forceEq then copy else []
+  | 17 => if e.massWaterSwitch && i == e.oxygenIdx then [] else copy
+  | 19 => if u.moles ≤ e.minRel then [] else copy
+  | 20 => if u.moles ≤ e.minRel then [] else copy
+  | 21 | 22 | 23 => if u.grams ≤ e.minRel then [] else copy
+  | 16 =>
+    if e.massWaterSwitch && i == e.hydrogenIdx then
+      [IRow.dense 1 i ((c.zip oxy).map fun p => p.1 - lit 2 * p.2) b (lit 0)]
+    else copy
+  | _ => copy
+
+/-- inequality rows of a pure phase: `x_i ≤ moles` (do not remove more than is present) and, for dissolve_only,
+`−x_i ≤ initial − moles` (do not precipitate more than was dissolved) -/
+def ppIneqRows (i : Nat) (u : IUnk α) : List (IRow α) :=
+  if !u.phaseIn then []
+  else if ppIdle u then []
+  else
+    let dis := if u.dissolveOnly then [IRow.unit i i (-(lit 1)) (u.initial - u.moles)] else []
+    if u.moles ≤ lit 0 then dis
+    else if ppBlocked u then []
+    else IRow.unit i i (lit 1) u.moles :: dis
+
+/-- sign restriction `delta1[i]`: `−1` = the variable must be ≤ 0 (an absent phase can only precipitate) -/
+def ppSign (u : IUnk α) : α :=
+  if u.type == 18 && u.phaseIn && !ppIdle u && decide (u.moles ≤ lit 0) then -(lit 1) else lit 0
+
+/-- solid-solution component: `x_i ≤ 0.99·moles − MIN_TOTAL_SS` -/
+def ssIneqRows (e : IEnv α) (i : Nat) (u : IUnk α) : List (IRow α) :=
+  if u.type == 25 && u.phaseIn && u.ssIn then [IRow.unit i i (lit 1) (lit (99 / 100) * u.moles - e.minTotalSS)] else []
+
+def enum : Nat → List β → List (Nat × β)
+  | _, [] => []
+  | n, b :: bs => (n, b) :: enum (n + 1) bs
+
+/-- all rows in the order `ineq()` writes them -/
+def ineqRows (e : IEnv α) (us : List (IUnk α)) (jac : List (List α)) : List (IRow α) :=
+  let ix := enum 0 (us.zip jac)
+  let oxy := (splitRow (jac.getD e.oxygenIdx [])).1
+  (ix.flatMap fun p => optRows e p.1 p.2.1 p.2.2) ++
+  (ix.flatMap fun p => eqRows e p.1 p.2.1 p.2.2 oxy) ++
+  (ix.flatMap fun p => if p.2.1.type == 18 then ppIneqRows p.1 p.2.1 else []) ++
+  (ix.flatMap fun p => ssIneqRows e p.1 p.2.1)
+
+def ineqZero (e : IEnv α) (us : List (IUnk α)) : List Bool := (enum 0 us).map fun p => zeroCol e p.1 p.2
+def ineqSigns (us : List (IUnk α)) : List α := us.map ppSign
+
 end PhreeqcVerif.Assemblage
